@@ -477,6 +477,97 @@ def e6(prog: Program, chk: Check) -> None:
             "" if n_calls >= 30 else "fewer resolvable calls than confirmed by hand")
 
 
+def stored_coupling_reads(prog: Program, chk: Check, rule: str) -> None:
+    chk.rule(rule, "Bath stores the coupling operator in its eigenbasis (diagonal) together with "
+             "the unitary U; every reader outside bath.py either rotates it back (U @ D @ "
+             "U^dagger with the same bath's unitary_transform) or rejects baths whose unitary "
+             "is not the identity - read as it is, a non-diagonal coupling silently becomes its "
+             "diagonal form", floor=2)
+    from oqv.dataflow import expand as _expand
+    n = 0
+    for u in prog.units.values():
+        if isinstance(u.node, ast.Lambda) or u.module.short == "bath":
+            continue
+        reads = [x for x in walk_local(u.node) if isinstance(x, ast.Attribute)
+                 and x.attr == "coupling_operator" and isinstance(x.ctx, ast.Load)]
+        if not reads:
+            continue
+        du = DefUse(u, CFG(u.node, exc_edges=False))
+        chk.saw(u, du.cfg)
+        # a function that refuses non-diagonal couplings may use the diagonal form
+        def _guard(st):
+            if not (isinstance(st, ast.If) and any(isinstance(r, ast.Raise) for r in st.body)):
+                return False
+            core_ = st.test
+            while isinstance(core_, ast.UnaryOp) and isinstance(core_.op, ast.Not):
+                core_ = core_.operand           # the flow graph keeps the operand of `not`
+            nid_ = du.node_of(core_)
+            t_ = _expand(du, nid_, core_, depth=4) if nid_ is not None else core_
+            return "unitary_transform" in norm(t_) \
+                and any(isinstance(c, ast.Call) and (dotted(c.func) or "").split(".")[-1] in ("allclose", "array_equal")
+                        for c in ast.walk(t_)) \
+                and any(isinstance(c, ast.Call) and (dotted(c.func) or "").split(".")[-1] in ("identity", "eye")
+                        for c in ast.walk(t_))
+        guarded = any(_guard(st) for st in walk_local(u.node))
+        for st in walk_local(u.node):
+            if not isinstance(st, (ast.Assign, ast.Return, ast.Expr, ast.AugAssign)) or st.value is None:
+                continue
+            if isinstance(st, ast.Assign) and isinstance(st.value, ast.Attribute) \
+                    and st.value.attr == "coupling_operator" \
+                    and all(isinstance(t, ast.Name) for t in st.targets):
+                continue            # a plain local for it: judged where the local is used
+            nid = du.node_of(st)
+            if nid is None:
+                continue
+            ex = _expand(du, nid, st.value, depth=4)
+            occ = [x for x in ast.walk(ex) if isinstance(x, ast.Attribute) and x.attr == "coupling_operator"]
+            if not occ:
+                continue
+            # flatten the matrix products of the expanded expression
+            prods = []
+            for x in ast.walk(ex):
+                if isinstance(x, ast.BinOp) and isinstance(x.op, ast.MatMult):
+                    fac, cur = [], x
+                    while isinstance(cur, ast.BinOp) and isinstance(cur.op, ast.MatMult):
+                        fac.insert(0, cur.right)
+                        cur = cur.left
+                    fac.insert(0, cur)
+                    prods.append(fac)
+                elif isinstance(x, ast.Call) and (dotted(x.func) or "").split(".")[-1] in ("dot", "matmul") \
+                        and len(x.args) == 2:
+                    inner = x.args[0]
+                    if isinstance(inner, ast.Call) and (dotted(inner.func) or "").split(".")[-1] in ("dot", "matmul") \
+                            and len(inner.args) == 2:
+                        prods.append([inner.args[0], inner.args[1], x.args[1]])
+                    outer = x.args[1]
+                    if isinstance(outer, ast.Call) and (dotted(outer.func) or "").split(".")[-1] in ("dot", "matmul") \
+                            and len(outer.args) == 2:
+                        prods.append([x.args[0], outer.args[0], outer.args[1]])
+            for o in occ:
+                n += 1
+                owner = norm(o.value)
+                sandwiched = any(
+                    len(f) >= 3 and any(
+                        f[i] is o and norm(f[i - 1]) == f"{owner}.unitary_transform"
+                        and adjoint_base(f[i + 1]) is not None
+                        and norm(adjoint_base(f[i + 1])) == f"{owner}.unitary_transform"
+                        for i in range(1, len(f) - 1)) for f in prods)
+                ok = sandwiched or guarded
+                chk.add(rule, u, f"{norm(st)[:70]}", ok,
+                        ("rotated back with the bath's unitary" if sandwiched else
+                         "function rejects non-diagonal couplings") if ok else
+                        f"`{owner}.coupling_operator` is the diagonalised operator: used as it is, a "
+                        f"bath with a non-diagonal coupling is treated as if it coupled through its "
+                        f"eigenvalues in the original basis", st)
+    if n < 2:
+        raise AnalysisError(f"{rule}: only {n} reads of a bath's stored coupling operator found outside "
+                            f"bath.py (bath_dynamics and GibbsTempo confirmed by hand)")
+
+
+def e7(prog: Program, chk: Check) -> None:
+    stored_coupling_reads(prog, chk, "E7")
+
+
 def run(prog: Program, chk: Check) -> None:
     chk.explanation = (
         "Decides two structural conditions of C05: E1 the diagonalising transform of the "
@@ -493,3 +584,8 @@ def run(prog: Program, chk: Check) -> None:
     chk.call(e4, prog, chk)
     chk.call(e5, prog, chk)
     chk.call(e6, prog, chk)
+    chk.call(e7, prog, chk)
+    # the transforms a file-backed process tensor is re-opened with are the ones stored under
+    # the same names (a swapped / doubled key exchanges U and U^dagger on one leg)
+    from rules.c16 import x1 as _file_keys
+    chk.call(_file_keys, prog, chk, "E8")
